@@ -100,7 +100,7 @@ def expr_loads(e):
     return False
 
 
-VAR_KINDS = ("auto", "reserved", "indexed")
+VAR_KINDS = ("auto", "reserved", "indexed", "indexed-first")
 
 
 def case(job):
@@ -119,6 +119,9 @@ def case(job):
         if kind == "indexed":
             # the variable's index is also taken (as DynamicScratchVar / by-reference passing do), on a path that stores nothing
             e = pt.Seq(pt.If(pt.Txn.fee() == pt.Int(12345)).Then(pt.Pop(b.gvars["x"].index())), e)
+        if kind == "indexed-first":
+            # the index is taken unconditionally before anything else: taking an index is not a write
+            e = pt.Seq(pt.Pop(b.gvars["x"].index()), e)
         kw = {"optimize": pt.OptimizeOptions(scratch_slots=opt)} if opt is not None else {}
         pt.compileTeal(e, pt.Mode.Application, version=version, **kw)
         if bad:
@@ -159,14 +162,14 @@ def run(report: Report, tier, seed):
             jobs.append((s, 10, False))
         # the same shapes on an explicitly numbered variable and on one whose index is also taken
         if i % 2 == 0 or tier != "quick":
-            jobs.append((s, v, None, VAR_KINDS[1 + i % 2]))
+            jobs.append((s, v, None, VAR_KINDS[1 + i % 3]))
     with ProcessPoolExecutor(max_workers=16) as ex:
         res = list(ex.map(case, jobs, chunksize=32))
     bad = [r for r in res if r["problem"]]
     nrej = sum(1 for r in res if r["expect_reject"])
     report.bounded.append(Bounded(function="compileTeal (validateSlots via assignScratchSlotsToSubroutines)",
                                   contract="rejected with TealInternalError caused by a TealCompileError naming the load  <=>  some syntactic path reaches a load of the local variable before any store",
-                                  bound=f"variable kinds auto / explicitly numbered / index-taken; statement shapes of nesting depth <= 2 over store / load / If / If-Else / Seq / While / Cond / Break / Continue / Return ({len(S)} shapes{' (every 3rd + first 40)' if tier == 'quick' else ', exhaustive'}), versions 4..10, optimiser default/off",
+                                  bound=f"variable kinds auto / explicitly numbered / index taken on a side path / index taken first; statement shapes of nesting depth <= 2 over store / load / If / If-Else / Seq / While / Cond / Break / Continue / Return ({len(S)} shapes{' (every 3rd + first 40)' if tier == 'quick' else ', exhaustive'}), versions 4..10, optimiser default/off",
                                   cases=len(res), distinct_nontrivial=len({repr(j[0]) for j in jobs}), failures=len(bad)))
     report.sample({"shape": repr(S[11])[:200], "expected_rejected": analyse(("seq", [S[11]]), {False})[1]})
     report.extra["explanation"] = f"P: validateSlots closure contract (pyvc); B: exhaustive small scope ({nrej} shapes must be rejected, {len(res) - nrej} accepted)"
